@@ -370,10 +370,12 @@ def run(tier):
     pool = ThreadPoolExecutor(max_workers=6)
 
     # 1. design (counter per object) implements the meaning (who refers to what) for all histories in the bound
-    def mc_job(c):
-        nw = max(4, vlib.NCPU // 2) if (tier == "quick" or len(cfg["mc"]) > 1) else vlib.NCPU
-        return c, vlib.tlc("MC_RefCount", c, coverage=(tier == "thorough"), tag="MC_RefCount_" + c[:-4], workers=nw, timeout=2400)
-    mcs = [pool.submit(mc_job, c) for c in cfg["mc"]]      # run while the bindings below are exercised
+    def mc_job():
+        # one after the other: on a loaded machine two model checkers side by side only slow each other down
+        nw = vlib.NCPU if tier == "thorough" else max(4, vlib.NCPU // 2)
+        return [(c, vlib.tlc("MC_RefCount", c, coverage=(tier == "thorough"), tag="MC_RefCount_" + c[:-4], workers=nw, timeout=2400))
+                for c in cfg["mc"]]
+    mc = pool.submit(mc_job)      # runs while the bindings below are exercised
 
     # 3. binding B: seeded histories recorded from the real code, validated by TLC
     hist = gen_histories(ck, cfg["nhist"], cfg["steps"])
@@ -428,7 +430,7 @@ def run(tier):
     ck.cov["traces_validated_against_impl"] = acc
     vlib.log("C15 traces: %d histories, %d accepted (t=%.0fs)" % (len(hist), acc, time.time() - ck.t0))
 
-    for c, res in (j.result() for j in mcs):
+    for c, res in mc.result():
         ck.add_tlc(res, "exhaustive " + c)
         vlib.log("C15 model checked (%s): %d states, %d transitions, %.1fs" % (c, res.distinct, res.generated, res.wall))
     pool.shutdown()
